@@ -498,7 +498,9 @@ func ruleNarrowEncoders(p *Program, r *Result, validators map[string]*ssa.Functi
 			}
 		}
 	}
-	r.floor("R-NARROW", 25)
+	if len(validators) > 1 {
+		r.floor("R-NARROW", 25)
+	}
 }
 
 // helperWidth: a module helper func(b []byte, i int) []byte that appends byte(i>>8), byte(i) -> 2.
